@@ -321,6 +321,29 @@ stream_step(struct stream *stream)
 
 	stream->cur_ev = (struct ovni_ev *) &stream->buf[stream->offset];
 
+	/* Ensure the header fits before reading any field of the event,
+	 * including the size of a jumbo event */
+	int64_t left = stream->size - stream->offset;
+	int64_t minsize = (int64_t) sizeof(struct ovni_ev_header);
+	int is_jumbo = left >= minsize
+			&& (stream->cur_ev->header.flags & OVNI_EV_JUMBO);
+
+	if (is_jumbo)
+		minsize += (int64_t) sizeof(stream->cur_ev->payload.jumbo.size);
+
+	if (left < minsize) {
+		err("stream '%s' ends with incomplete event",
+				stream->relpath);
+		return -1;
+	}
+
+	/* A huge jumbo size would overflow the int event size */
+	if (is_jumbo && (int64_t) stream->cur_ev->payload.jumbo.size > left) {
+		err("stream '%s' ends with incomplete event",
+				stream->relpath);
+		return -1;
+	}
+
 	/* Ensure the event fits */
 	if (stream->offset + ovni_ev_size(stream->cur_ev) > stream->size) {
 		err("stream '%s' ends with incomplete event",
